@@ -258,6 +258,32 @@ def run_once(info, inputs):
             continue
     if fn is None:
         return 'error', f'cannot resolve {qual}'
+    if info.get('loop') is not None:
+        # the loop body as a function of the contract's parameters, extracted from the real source like pyvc does
+        import inspect
+        import textwrap
+        src = textwrap.dedent(inspect.getsource(fn))
+        fnode = ast.parse(src).body[0]
+        loops = [n for n in ast.walk(fnode) if isinstance(n, (ast.For, ast.While))]
+        loops.sort(key=lambda n: (n.lineno, n.col_offset))
+        lp = loops[info['loop']]
+        args = ast.arguments(posonlyargs=[], args=[ast.arg(arg=a) for a in info['params']], vararg=None, kwonlyargs=[],
+                             kw_defaults=[], kwarg=None, defaults=[])
+        body = list(lp.body)
+
+        class Cut(ast.NodeTransformer):
+            def visit_Continue(self, n):
+                return ast.Return(value=None)
+
+            def visit_Break(self, n):
+                return ast.Return(value=None)
+        body = [Cut().visit(b) for b in body]
+        fd = ast.FunctionDef(name='loop_body', args=args, body=body, decorator_list=[], returns=None, type_comment=None)
+        mod_ast = ast.Module(body=[fd], type_ignores=[])
+        ast.fix_missing_locations(mod_ast)
+        g = dict(importlib.import_module(modname).__dict__)
+        exec(compile(mod_ast, '<loop body>', 'exec'), g)
+        fn = g['loop_body']
     if isinstance(fn, property):
         fn = fn.fget
     if isinstance(fn, (staticmethod, classmethod)):
@@ -301,6 +327,9 @@ def run_once(info, inputs):
             return 'held', f'exc={type(exc).__name__ if exc else None} cond={bool(cond)}'
         if '#raises-' in name:
             cond = eval_clause(clause, ns, old_env, old_env)
+            want = name.split('#raises-')[1].split('-only-if')[0]
+            if exc is not None and want not in [k.__name__ for k in type(exc).__mro__]:
+                return 'held', f'native run raised {type(exc).__name__}: {exc} (not the exception of this obligation)'
             if exc is not None and not cond:
                 return 'reproduced', f'raised {type(exc).__name__} although the declared condition is false'
             return 'held', f'exc={type(exc).__name__ if exc else None} cond={bool(cond)}'
